@@ -60,7 +60,8 @@ Record bstep := {
   b_fgrp : nat;         (* TFS: from_feature_group (0 for FG) *)
   b_any : nat;          (* FG: features.any_uuid (0 for TFS) *)
   b_cir : list nat;     (* FG: children_if_root *)
-  b_tfs : list nat      (* FG: tfs_ids *)
+  b_tfs : list nat;     (* FG: tfs_ids *)
+  b_link : bool         (* TFS: made for a JoinStep (link_id is set); always false without Links *)
 }.
 Definition bplan := list bstep.
 Definition steps_of (p : bplan) : plan := map bs p.
@@ -109,14 +110,14 @@ Definition mk_tfs (e : tev) : bstep :=
   match te_key e with
   | (fr, to, fg, tg) =>
     {| bs := {| sid := 0; skind := KTFS; uuids := [te_id e]; req := [te_parent e]; requested := false |};
-       b_cfw := to; b_from := fr; b_grp := tg; b_fgrp := fg; b_any := 0; b_cir := []; b_tfs := [] |}
+       b_cfw := to; b_from := fr; b_grp := tg; b_fgrp := fg; b_any := 0; b_cir := []; b_tfs := []; b_link := false |}
   end.
 (* the feature-group step after the loop: required_uuids got the uuids of the KEPT steps, tfs_ids those of ALL *)
 Definition mk_fg (g : fgraph) (cl : amap) (s : step) (evs : list tev) : bstep :=
   let a := hd 0 (uuids s) in
   {| bs := {| sid := 0; skind := KFG; uuids := uuids s; req := req s ++ map te_id (filter te_new evs); requested := requested s |};
      b_cfw := cfw_of g a; b_from := 0; b_grp := grp_of g a; b_fgrp := 0; b_any := a;
-     b_cir := cir_of cl (uuids s); b_tfs := map te_id evs |}.
+     b_cir := cir_of cl (uuids s); b_tfs := map te_id evs; b_link := false |}.
 
 (* one iteration of `for ep in execution_plan` *)
 Definition add_tfs_step (ord : oparam) (g : fgraph) (cl : amap) (acc : tstate * bplan) (s : step) : tstate * bplan :=
@@ -128,7 +129,7 @@ Definition add_tfs (ord : oparam) (g : fgraph) (raw : list step) : bplan :=
 
 Definition bset_sid (i : nat) (b : bstep) : bstep :=
   {| bs := set_sid i (bs b); b_cfw := b_cfw b; b_from := b_from b; b_grp := b_grp b; b_fgrp := b_fgrp b; b_any := b_any b;
-     b_cir := b_cir b; b_tfs := b_tfs b |}.
+     b_cir := b_cir b; b_tfs := b_tfs b; b_link := b_link b |}.
 Fixpoint bnumber (i : nat) (p : bplan) : bplan :=
   match p with [] => [] | b :: t => bset_sid i b :: bnumber (S i) t end.
 
